@@ -180,16 +180,28 @@ def run(F, rep):
                                 st.extend(cfg.succ[b])
                 rep.check(bad is None, 'C01.M1', '%s|%s(%s)' % (f.short, cname(n_), a['n']), f.where(n_),
                           '`%s` is read at line %s after it was released by %s at line %s (use after free)' % (a['n'], bad.get('l') if bad else '?', cname(n_), n_.get('l')), 'not read again before reassignment')
-            # acquisitions
-            if n_.get('k') in ('Var',) and n_.get('c') and n_['c'][0].get('k') == 'Call' and n_['c'][0].get('callee') in XML_ACQUIRE:
-                n_acq += 1
-                acq = n_['c'][0]
-                rel = XML_ACQUIRE[acq['callee']]
-                frees = [x for x in f.walk() if x.get('k') == 'Call' and cname(x) == rel and any(y.get('k') == 'Ref' and y.get('d') == n_['d'] for y in walk(x))]
-                from issues import must_pass
-                ok = bool(frees) and must_pass(cfg, acq, [x['i'] for x in frees])
-                # ownership handed to a document/tree (e.g. xmlSetProp copies; a DTD attached to the doc) is not an acquisition held locally
-                rep.check(ok, 'C01.M2', '%s|%s->%s' % (f.short, acq['callee'], n_['n']), f.where(n_), '%s acquired by %s is not released by %s on every path to the exit' % (n_['n'], acq['callee'], rel), 'released on every path')
+    # acquisitions: acquire ... release on every path, also when the two halves live in file-local helpers (the helper that returns what it
+    # acquired hands the obligation to its callers; a helper that frees its parameter discharges it)
+    from engines import pairing_with_helpers
+
+    def _acq(c):
+        return XML_ACQUIRE[c['callee']] if c.get('callee') in XML_ACQUIRE and (f_par(c) is not None) else None
+
+    def f_par(c):
+        return c
+
+    def _rel(c):
+        return cname(c) if cname(c) in set(XML_ACQUIRE.values()) else None
+    xfs = [f for f in F.funcs.values() if re.search(r'xml\w*\.cpp$', f.file)]
+    for f, c, k_, ok, how in pairing_with_helpers(F, xfs, _acq, _rel):
+        # only acquisitions held in a local (ownership handed to a document/tree is not held locally)
+        p_ = f.parent(c)
+        direct = c.get('callee') in XML_ACQUIRE
+        if direct and not (p_ is not None and p_.get('k') == 'Var'):
+            continue
+        n_acq += 1
+        rep.check(ok, 'C01.M2', '%s|%s->%s' % (f.short, c.get('callee') or c.get('fn'), p_['n'] if p_ is not None and p_.get('k') == 'Var' else '?'), f.where(c),
+                  'what %s acquires here is not released by %s on every path to the exit' % (c.get('callee') or c.get('fn'), k_), 'released on every path (%s)' % how)
     if n_free < 5 or n_acq < 5:
         raise AnalysisBroken('C01.M: %d frees / %d acquisitions found (5/7 confirmed)' % (n_free, n_acq))
 
@@ -304,7 +316,8 @@ def run(F, rep):
     rep.check(bool(uses) and not bad, 'C01.G3', 'loadModel|root-node', lm.where(rn), 'root node `%s` is dereferenced at line(s) %s without a null test' % (rn['n'], sorted({c.get('l') for c in bad})), '%d uses, all after the null test' % len(uses))
     for nm in ('parse', 'parseMathML'):
         xp = F.fn1('libcellml::XmlDoc::' + nm)
-        seth = [c for c in xp.walk() if c.get('k') == 'Call' and c.get('callee') == 'xmlSetStructuredErrorFunc']
+        seth = [c for c in xp.walk() if c.get('k') == 'Call' and (c.get('callee') == 'xmlSetStructuredErrorFunc'
+                                                                 or any(ck in F.funcs and F.funcs[ck].file == xp.file and any(y.get('k') == 'Call' and y.get('callee') == 'xmlSetStructuredErrorFunc' and y.get('c') and render(y['c'][-1]) != 'nullptr' for y in F.funcs[ck].walk()) for ck in F.callee_keys(c)))]
         rd = [c for c in xp.walk() if c.get('k') == 'Call' and c.get('callee') in ('xmlCtxtReadDoc', 'xmlReadDoc', 'xmlParseDoc')]
         if not rd:
             raise AnalysisBroken('XmlDoc::%s: no libxml2 read call' % nm)
@@ -429,7 +442,13 @@ def run(F, rep):
     rep.rule('C01.N2', 'a model taken out of the importer\'s library (which the public API can fill with null models) is null-tested before fetchModel hands it to ImportSource::setModel and reports success; '
                        'resolveImports dereferences the model of every import source whose fetch succeeded')
     fm_ = F.fn1('Importer::ImporterImpl::fetchModel')
-    reads = [c for c in fm_.walk() if c.get('k') == 'Call' and c.get('opc') == '=' and c['c'][0].get('k') == 'Ref' and 'mLibrary' in render(c['c'][1])]
+    from engines import single_def as _sd
+
+    def _from_library(e):
+        if 'mLibrary' in render(e):
+            return True
+        return any(x.get('k') == 'Ref' and x.get('dk') == 'local' and _sd(fm_, x.get('d')) is not None and 'mLibrary' in render(_sd(fm_, x.get('d'))) for x in walk(e))
+    reads = [c for c in fm_.walk() if c.get('k') == 'Call' and c.get('opc') == '=' and c['c'][0].get('k') == 'Ref' and _from_library(c['c'][1])]
     sets = [c for c in fm_.walk() if c.get('k') == 'Call' and c.get('fn') == 'setModel']
     if not reads or len(sets) != 1:
         raise AnalysisBroken('fetchModel: library read / setModel vanished (%d reads, %d setModel)' % (len(reads), len(sets)))
